@@ -7,6 +7,7 @@ import EtVerif.Driver.C11
 import EtVerif.Driver.C08
 import EtVerif.Driver.C06
 import EtVerif.Driver.Compute
+import EtVerif.Driver.OapiD
 
 open EtVerif EtVerif.Driver
 
@@ -16,7 +17,14 @@ def judgeLine (line : String) : String :=
   | id :: prop :: op :: rest =>
     let p : P Verdict := match prop with
       | "C09" => judgeC09 op
-      | "C01" | "C02" | "C05" | "C18" => (if op == "compute" then judgeCompute prop else throw s!"unknown op {op}")
+      | "C01" | "C02" | "C05" | "C18" | "C03" | "C13" | "C14" | "C15" =>
+        (if op == "compute" then judgeCompute prop
+         else if op == "oapi" then judgeOapi prop
+         else if op == "hist" then judgeStoreHist
+         else if op == "isolate" then judgeIsolate
+         else if op == "state" then judgeState
+         else if op == "bytes" then judgeBytes
+         else throw s!"unknown op {op}")
       | "C10" => judgeC10 op
       | "C11" => judgeC11 op
       | "C08" => judgeC08 op
